@@ -583,6 +583,50 @@ fn exhaustive_mutex(ctx: &Ctx) {
     }
 }
 
+/// "storm": a parked waiter is woken for nothing hundreds of times (the event tape holds K spurious returns of
+/// futex_wait, K around 255 / 256 and 511 / 512 - where a narrow counter of such returns wraps) while the holder is
+/// preempted inside its critical section; then a second waiter parks and the holder releases. Every placement of
+/// the one forced preemption; run-to-block otherwise.
+fn storm_mutex(ctx: &Ctx) {
+    let prog = vec![vec![(MKind::Lock, 1u8)], vec![(MKind::Lock, 0u8)], vec![(MKind::Lock, 0u8)]];
+    let mut k = 0u32;
+    for spurious in [3usize, 254, 255, 256, 257, 511, 512] {
+        for s1 in 0u32..24 {
+            k += 1;
+            if k % ctx.nworkers != ctx.worker {
+                continue;
+            }
+            let case = MutexCase { prog: prog.clone(), sched: Sched::Preempt(vec![(s1, 1u8)]), events: Events { tape: vec![210u8; spurious] } };
+            if !ctx.run_one("mutex-storm", &case, || check_mutex(&case)) {
+                return;
+            }
+        }
+    }
+}
+
+fn storm_rw(ctx: &Ctx) {
+    let progs = [
+        vec![vec![(RKind::Write, 1u8)], vec![(RKind::Write, 0u8)], vec![(RKind::Read, 0u8)]],
+        vec![vec![(RKind::Write, 1u8)], vec![(RKind::Read, 0u8)], vec![(RKind::Write, 0u8)]],
+        vec![vec![(RKind::Read, 1u8)], vec![(RKind::Write, 0u8)], vec![(RKind::Read, 0u8)]],
+    ];
+    let mut k = 0u32;
+    for prog in &progs {
+        for spurious in [3usize, 255, 256, 511] {
+            for s1 in 0u32..24 {
+                k += 1;
+                if k % ctx.nworkers != ctx.worker {
+                    continue;
+                }
+                let case = RwCase { prog: prog.clone(), sched: Sched::Preempt(vec![(s1, 1u8)]), events: Events { tape: vec![210u8; spurious] } };
+                if !ctx.run_one("rw-storm", &case, || check_rw(&case)) {
+                    return;
+                }
+            }
+        }
+    }
+}
+
 fn exhaustive_rw(ctx: &Ctx) {
     let ops = [(RKind::Read, 0u8), (RKind::Write, 0), (RKind::Write, 1), (RKind::TryWrite, 0), (RKind::TryRead, 0)];
     let mut threads: Vec<Vec<(RKind, u8)>> = Vec::new();
@@ -735,8 +779,12 @@ fn main() {
                 if let Some(c) = ctx.replay_case::<MutexCase>("mutex-exh3") {
                     ctx.run_one("mutex-exh3", &c, || check_mutex(&c));
                 }
+                if let Some(c) = ctx.replay_case::<MutexCase>("mutex-storm") {
+                    ctx.run_one("mutex-storm", &c, || check_mutex(&c));
+                }
             } else {
                 exhaustive_mutex(ctx);
+                storm_mutex(ctx);
                 {
                     exhaustive3(ctx, "mutex-exh3", &[(MKind::Lock, 0u8), (MKind::Lock, 1), (MKind::TryLock, 0), (MKind::Debug, 1)], &|prog, sched| {
                         let case = MutexCase { prog: prog.clone(), sched, events: Events::default() };
@@ -756,8 +804,12 @@ fn main() {
                 if let Some(c) = ctx.replay_case::<RwCase>("rw-exh3") {
                     ctx.run_one("rw-exh3", &c, || check_rw(&c));
                 }
+                if let Some(c) = ctx.replay_case::<RwCase>("rw-storm") {
+                    ctx.run_one("rw-storm", &c, || check_rw(&c));
+                }
             } else {
                 exhaustive_rw(ctx);
+                storm_rw(ctx);
                 {
                     exhaustive3(ctx, "rw-exh3", &[(RKind::Read, 0u8), (RKind::Write, 0), (RKind::TryWrite, 0), (RKind::TryRead, 0)], &|prog, sched| {
                         let case = RwCase { prog: prog.clone(), sched, events: Events::default() };
